@@ -33,3 +33,9 @@ def run(ctx):
     S.r04_4_no_dynamic_lookup(ctx)
     S.r03_8_whole_node(ctx)
     S.r01_6_deep_recheck(ctx)
+    S.r02_9_requiredness(ctx, 'R01.8')
+    S.r03_1_abstract(ctx)
+    S.r03_4_most_derived(ctx)
+    S.r03_6_foreign_tags(ctx)
+    from . import helpers_rules as H
+    H.r16_1_purity(ctx, 'R01.7', roots=['yatiml.recognizer:Recognizer.recognize', 'yatiml.introspection:class_subobjects'], what='recognition and signature introspection')
